@@ -475,6 +475,7 @@ func TestCallerBuffersNotRetained(t *testing.T) {
 			"emitted afterwards must be identical; non-trivial = the subject emitted something after the call that supplied its data returned; distinct by subject and history")
 	subs := subjects()
 	rapid.Check(t, func(t *rapid.T) {
+		kit.Idle()
 		si := rapid.IntRange(0, len(subs)-1).Draw(t, "subject")
 		sub := subs[si]
 		n := rapid.IntRange(4, 60).Draw(t, "packets")
